@@ -176,8 +176,10 @@ func runCase(c *dcase, r *res.Result) (string, string) {
 	basePort := 0
 	for i := 0; i < c.Clients; i++ {
 		la := &net.UDPAddr{IP: net.IPv4(127, 0, 0, 1)}
-		if c.MultiIP && i < 3 {
-			la.IP = net.IPv4(127, 0, 0, byte(1+i))
+		if c.MultiIP && i < 5 {
+			// the same port on other loopback addresses: neighbours (127.0.0.2, .3) and addresses that differ from 127.0.0.1
+			// in another octet only (127.1.0.1, 127.0.1.1) - every pair is a different remote
+			la.IP = []net.IP{net.IPv4(127, 0, 0, 1), net.IPv4(127, 0, 0, 2), net.IPv4(127, 0, 0, 3), net.IPv4(127, 1, 0, 1), net.IPv4(127, 0, 1, 1)}[i]
 			la.Port = basePort
 		}
 		cc, err := net.DialUDP("udp", la, laddr)
@@ -659,7 +661,7 @@ func main() {
 	flag.Parse()
 	_, _ = nshard, replay
 	r := res.New("C11")
-	r.Rule = "2-24 client sockets on 127.0.0.1 (and the same port on 127.0.0.2/.3) send tagged datagrams (client, seq, length, filler; sizes 12..8192) to a real loopback listener (every eighth read of a connection handler is a short read into 16 bytes); configurations: one remote overfilling its connection's 4 MiB receive buffer while the handler does not read (slow reader), backlog 1/2/128, accept filter none / first-byte-even, batch reads off/2/8, paced (window <= 8 datagrams or 4 KiB outstanding per client) or burst, connections closed after a few reads and re-created, an overflow phase with more first datagrams than the backlog while nobody accepts; oracle per connection: remote address == tagged sender, strictly increasing seq (across successive connections of a remote too), byte-identical payload, gap-free and complete in paced mode, no second open connection per remote, no connection for filtered remotes, at most backlog connections queued, first read = first admitted datagram; distinct = (case shape) cells"
+	r.Rule = "2-24 client sockets on 127.0.0.1 (and the same port on 127.0.0.2, .3, 127.1.0.1 and 127.0.1.1) send tagged datagrams (client, seq, length, filler; sizes 12..8192) to a real loopback listener (every eighth read of a connection handler is a short read into 16 bytes); configurations: one remote overfilling its connection's 4 MiB receive buffer while the handler does not read (slow reader), backlog 1/2/128, accept filter none / first-byte-even, batch reads off/2/8, paced (window <= 8 datagrams or 4 KiB outstanding per client) or burst, connections closed after a few reads and re-created, an overflow phase with more first datagrams than the backlog while nobody accepts; oracle per connection: remote address == tagged sender, strictly increasing seq (across successive connections of a remote too), byte-identical payload, gap-free and complete in paced mode, no second open connection per remote, no connection for filtered remotes, at most backlog connections queued, first read = first admitted datagram; distinct = (case shape) cells"
 	r.Assumptions = []string{"Linux loopback UDP does not reorder between one socket pair and does not drop while less than 100 KiB is outstanding in total", "listener idleness is read from the read loop's goroutine state (IO wait, two samples)"}
 	n := 40
 	if *tier == "thorough" {
